@@ -382,8 +382,8 @@ func checkExpiryPass(c *Ctx, fn *ssa.Function) {
 				continue
 			}
 			extra := ""
-			for l := range f.At(b) {
-				if f.At(cv.Block())[l] {
+			for l := range f.Primary(b) {
+				if f.Primary(cv.Block())[l] {
 					continue
 				}
 				if l.V == ssa.Value(cv) {
@@ -475,7 +475,8 @@ func checkOrphanPass(c *Ctx, fn *ssa.Function) {
 									}
 								}
 								if okRet {
-									set, setFn, listParam = cv, g, "p"+itoa(i)
+									set, setFn, listParam = cv, g, "p2" // the helper's parameter is rendered as the argument it receives
+									_ = i
 									c.Saw(g)
 									_ = mm
 								}
@@ -529,6 +530,7 @@ func checkOrphanPass(c *Ctx, fn *ssa.Function) {
 	// the set is filled from every listed key: map updates inside a forward range over p2, one on each branch of the cast
 	nUpd := 0
 	plain, viaCert := false, false
+	w.Focus(fn)
 	for _, b := range setFn.Blocks {
 		for _, ins := range b.Instrs {
 			mu, ok := ins.(*ssa.MapUpdate)
@@ -536,15 +538,34 @@ func checkOrphanPass(c *Ctx, fn *ssa.Function) {
 				continue
 			}
 			nUpd++
-			ke := w.Expr(mu.Key)
-			if strings.Contains(ke, "#0.Key)") {
-				viaCert = true
-			} else if strings.Contains(ke, "Marshal>("+listParam+"[") {
-				plain = true
+			// the hashed blob, over every value that may reach it (one insert per branch of the cast, or one insert
+			// of a blob chosen by the cast)
+			var kv ssa.Value = mu.Key
+			if hc, ok := strip(kv).(*ssa.Call); ok && len(hc.Call.Args) == 1 {
+				kv = hc.Call.Args[0]
+			}
+			for _, lf := range w.Leaves(kv, mu) {
+				ke := w.Expr(lf.Val)
+				castOK, castFailed := false, false
+				for l := range lf.Facts {
+					if y, isNil, ok := nilTest(l); ok {
+						if ex, isEx := strip(y).(*ssa.Extract); isEx && ex.Index == 1 {
+							if cc, isCall := ex.Tuple.(*ssa.Call); isCall && strings.HasSuffix(calleeName(cc), "CastSSHPublicKeyToCertificate") {
+								castOK, castFailed = castOK || isNil, castFailed || !isNil
+							}
+						}
+					}
+				}
+				if strings.Contains(ke, "#0.Key)") && castOK {
+					viaCert = true
+				} else if strings.Contains(ke, "Marshal>("+listParam+"[") && !castOK {
+					plain = true
+				}
+				_ = castFailed
 			}
 		}
 	}
-	c.Check(nUpd >= 2 && plain && viaCert, "R4.passes", "orphan|listed-key set filled from plain keys and certificates' keys", w.FnPos(fn), "both branches of the cast insert a key hash", "the listed-key set is not filled from every listed identity (plain key blob, or the key inside a certificate)")
+	c.Check(nUpd >= 1 && plain && viaCert, "R4.passes", "orphan|listed-key set filled from plain keys and certificates' keys", w.FnPos(fn), "both branches of the cast insert a key hash", "the listed-key set is not filled from every listed identity (plain key blob, or the key inside a certificate)")
 	// the range over the listing has no early exit: every If in the fill loop is the cast test or the loop condition (approximated: no Return inside the fill loop before the lookup loop)
 }
 
